@@ -76,6 +76,11 @@ def run(repo, tier) -> Result:
     check_sqrt("C09", res, repo, cas, signs)
     check_truth("C09", res, repo, cas, signs)
     check_wire("C09", res, repo, cas)
+    # the `x != 0` guards in front of the divisions protect them only down to the rounding quantum: every stored reading (helpers
+    # included) is rounded, so a decaying average reaches exactly 0 instead of a denormal whose reciprocal overflows to inf
+    from ..driver import check_round_by
+
+    check_round_by("C09", res, repo)
     # the resolver every formula reads through must not drop a legitimate 0 (volume == 0 -> None -> TypeError in VWAP/OBV)
     from .c20 import truthiness_sites
 
